@@ -74,8 +74,8 @@ def replay_family(fam, tier, variant, workdir):
 L2_PLAN = {
     # property: [(family, take every n-th scenario quick/thorough, mode)]
     "C03": [("inplace", 40, 8, "plain"), ("scansub", 60, 10, "plain"), ("big", 15, 40, "plain"), ("big", 2, 8, "bulk")],
-    "C02": [("seeds", 60, 10, "plain"), ("mixed", 20, 4, "plain"), ("big", 2, 8, "bulk")],
-    "C13": [("inplace", 80, 12, "plain"), ("mixed", 30, 6, "plain"), ("big", 20, 60, "plain"), ("big", 2, 8, "bulk")],
+    "C02": [("seeds", 60, 10, "plain"), ("mixed", 20, 4, "plain"), ("mixed", 11, 3, "stdin"), ("big", 2, 8, "bulk")],
+    "C13": [("inplace", 80, 12, "plain"), ("mixed", 30, 6, "plain"), ("mixed", 23, 7, "stdin"), ("big", 20, 60, "plain"), ("big", 2, 8, "bulk")],
     "C06": [("inplace", 70, 11, "plain"), ("mixed", 25, 5, "plain"), ("seeds", 120, 20, "plain"), ("big", 3, 12, "bulk")],
     "C07": [("mixed", 20, 4, "plain"), ("seeds", 80, 16, "plain")],
     "C08": [("mixed", 25, 5, "httpfaults"), ("inplace", 150, 30, "httpfaults")],
